@@ -87,7 +87,7 @@ theorem addend_fromColor (v : StyleVariant) (fg bg : Option Color) (h : fg.isSom
   simp [fromColor, h]
 
 /-- The rows of the decoder's table for the sixteen standard colours and `default`. -/
-theorem colorRows (v : StyleVariant) :
+theorem colorRows (v : StyleVariant) (hv : v = StyleVariant.fixed := by rfl) :
     (∀ n, n < 8 →
       parsedFields v (30 + n) = some ⟨some (fromAnsi n), none, 0, 0, none, false⟩ ∧
       parsedFields v (90 + n) = some ⟨some (fromAnsi (n + 8)), none, 0, 0, none, false⟩ ∧
@@ -96,7 +96,7 @@ theorem colorRows (v : StyleVariant) :
     parsedFields v 39 = some ⟨some defaultColor, none, 0, 0, none, false⟩ ∧
     parsedFields v 49 = some ⟨none, some defaultColor, 0, 0, none, false⟩ ∧
     sgrLookup 38 = none ∧ sgrLookup 48 = none := by
-  have ht := tablesOk_all v
+  have ht := tablesOk_all v hv
   simp only [tablesOk, colorRowsOk, Bool.and_eq_true, List.all_eq_true, List.mem_range, beq_iff_eq] at ht
   obtain ⟨⟨⟨⟨⟨_, ⟨hrows, h39⟩, h49⟩, _⟩, h38⟩, h48⟩, _⟩ := ht
   exact ⟨fun n hn => by obtain ⟨⟨⟨a, b⟩, c⟩, d⟩ := hrows n hn; exact ⟨a, b, c, d⟩, h39, h49, h38, h48⟩
@@ -115,7 +115,7 @@ theorem setColor_of_addend (v : StyleVariant) (fg : Bool) (c : Color) {st b : St
   · rw [h4, hg]; cases fg <;> simp
 
 /-- a code of the decoder's table that stands for a colour -/
-theorem applyCodes_colorRow (cfg : Cfg) (fg : Bool) (c : Color) (k : Nat) (hk : k ≠ 0)
+theorem applyCodes_colorRow (cfg : Cfg) (fg : Bool) (c : Color) (k : Nat) (hk : k ≠ 0 ∧ k ≠ 24 ∧ k ≠ 25)
     (hpf : parsedFields cfg.sv k = some ⟨if fg then some c else none, if fg then none else some c, 0, 0, none, false⟩)
     (st : Style) (r : List Nat) (hinv : Inv st) :
     ∃ st', applyCodes cfg st (k :: r) 0 = applyCodes cfg st' r 0 ∧ SetColor fg c st st' := by
@@ -132,11 +132,13 @@ theorem applyCodes_ext5 (cfg : Cfg) (fg : Bool) (n : Nat) (st : Style) (r : List
   · obtain ⟨hadd, hset, hc, hg⟩ := addend_fromColor cfg.sv none (some (fromAnsi n)) rfl
     refine ⟨add cfg.sv st (fromColor cfg.sv none (some (fromAnsi n))), ?_,
       setColor_of_addend cfg.sv false _ hinv hadd hset hc hg⟩
-    simp [applyCodes, h48, extColor]
+    have hv : sgrLookupV cfg 48 = none := by simp [sgrLookupV, h48]
+    simp [applyCodes, hv, extColor]
   · obtain ⟨hadd, hset, hc, hg⟩ := addend_fromColor cfg.sv (some (fromAnsi n)) none rfl
     refine ⟨add cfg.sv st (fromColor cfg.sv (some (fromAnsi n)) none), ?_,
       setColor_of_addend cfg.sv true _ hinv hadd hset hc hg⟩
-    simp [applyCodes, h38, extColor]
+    have hv : sgrLookupV cfg 38 = none := by simp [sgrLookupV, h38]
+    simp [applyCodes, hv, extColor]
 
 /-- `38;2;r;g;b` / `48;2;r;g;b` -/
 theorem applyCodes_ext2 (cfg : Cfg) (fg : Bool) (a b c : Nat) (st : Style) (r : List Nat) (hinv : Inv st) :
@@ -147,11 +149,13 @@ theorem applyCodes_ext2 (cfg : Cfg) (fg : Bool) (a b c : Nat) (st : Style) (r : 
   · obtain ⟨hadd, hset, hc, hg⟩ := addend_fromColor cfg.sv none (some (fromRgb a b c)) rfl
     refine ⟨add cfg.sv st (fromColor cfg.sv none (some (fromRgb a b c))), ?_,
       setColor_of_addend cfg.sv false _ hinv hadd hset hc hg⟩
-    simp [applyCodes, h48, extColor]
+    have hv : sgrLookupV cfg 48 = none := by simp [sgrLookupV, h48]
+    simp [applyCodes, hv, extColor]
   · obtain ⟨hadd, hset, hc, hg⟩ := addend_fromColor cfg.sv (some (fromRgb a b c)) none rfl
     refine ⟨add cfg.sv st (fromColor cfg.sv (some (fromRgb a b c)) none), ?_,
       setColor_of_addend cfg.sv true _ hinv hadd hset hc hg⟩
-    simp [applyCodes, h38, extColor]
+    have hv : sgrLookupV cfg 38 = none := by simp [sgrLookupV, h38]
+    simp [applyCodes, hv, extColor]
 
 /-- The parameters `get_ansi_codes` writes for a colour, and what the decoder makes of them. -/
 theorem colorCodes_spec (cfg : Cfg) (c : Color) (hc : canon c = true) (fg : Bool) :
